@@ -91,10 +91,14 @@ class C10(e1.E1Check):
                     ops.append(("slice_then_field", (path, ["t", p, q])))
                     ops.append(("field_then_slice", (path, ["t", p, q])))
         keys = c01_slicing._keys(T)
+        if keys:
+            # projection onto a list of fields, at any depth, alone and combined with positional slices in both orders
+            for ks in (list(keys), list(reversed(keys)), list(keys)[:1]):
+                ops.append(("getitem_fields", (ks,)))
+                for p in POS[:6]:
+                    ops.append(("fields_then_slice", (ks, p)))
+                    ops.append(("slice_then_fields", (ks, p)))
         if keys is not None and T[0] in ("rec", "tup"):
-            if keys:
-                ops.append(("getitem_fields", (list(keys),)))
-                ops.append(("getitem_fields", (list(reversed(keys)),)))
             for where in list(keys) + ["new", None]:
                 ops.append(("setitem_field", (where,)))
         return ops
@@ -122,6 +126,15 @@ class C10(e1.E1Check):
             return lay[items + tuple(path)]
         if opname == "getitem_fields":
             return lay[list(args[0])]
+        if opname == "fields_then_slice":
+            return lay[list(args[0])][opalpha.decode_slice(args[1])]
+        if opname == "slice_then_fields":
+            x = lay[opalpha.decode_slice(args[1])]
+            if x is None:
+                return None
+            if not isinstance(x, (ext.Content, ext.Record)):
+                raise ValueError("scalar has no fields")
+            return x[list(args[0])]
         if opname == "setitem_field":
             if not isinstance(lay, ext.RecordArray):
                 raise NotImplementedError("setitem_field is a method of RecordArray only")
@@ -141,6 +154,11 @@ class C10(e1.E1Check):
             return refops.getitem(T, tvs, items)
         if opname == "getitem_fields":
             return refops.getitem(T, tvs, (refops.Fields(args[0]),))
+        if opname in ("fields_then_slice", "slice_then_fields"):
+            items = c01_slicing.to_ref(args[1])
+            if not isinstance(items, tuple):
+                items = (items,)
+            return refops.getitem(T, tvs, items + (refops.Fields(args[0]),))
         if opname == "setitem_field":
             where = args[0]
             out = []
